@@ -10,8 +10,11 @@ use proptest::prelude::*;
 
 pub struct SampleStats;
 
-fn weights(n: usize) -> Vec<f64> {
-    (0..n).map(|i| 0.5 + (i % 4) as f64).collect()
+/// weights of the WeightedMeanWithError fed alongside: one in five is exactly zero (a zero-weight
+/// observation still counts for len() and the unweighted sample variance, C08), at a position that
+/// depends on the data so that a leading zero weight occurs too
+fn weights(n: usize, salt: u64) -> Vec<f64> {
+    (0..n).map(|i| [0.5, 1.5, 0.0, 2.5, 3.5][(i + (salt % 5) as usize) % 5]).collect()
 }
 
 impl Check for SampleStats {
@@ -35,7 +38,7 @@ impl Check for SampleStats {
         let m4: Moments4 = feed(xs);
         let m6: M6 = feed(xs);
         let mut w = WeightedMeanWithError::new();
-        for (x, wt) in xs.iter().zip(weights(n)) {
+        for (x, wt) in xs.iter().zip(weights(n, xs.first().map_or(0, |x| x.to_bits() >> 3))) {
             w.add(*x, wt);
         }
         o.classf(format!("n={}", if n <= 5 { n.to_string() } else { n_bucket(n)[2..].to_string() }));
@@ -160,7 +163,7 @@ pub fn fixed() -> Vec<Xs> {
 static SHAPES: [usize; 14] = [2, 3, 10, 10, 4, 5, 6, 11, 1, 0, 8, 12, 13, 13];
 
 pub fn run(cx: &Ctx) {
-    cx.set_rule("cases = sequences of length 0, 1, 2, 3, 4 and longer over the C01 domain (non-zero spread from n = 2), skewed in both directions; sample_variance of Variance, Skewness, Kurtosis, WeightedMeanWithError, Moments4 and a harness-instantiated order-6 define_moments! type, variance_of_mean/error/error_mean, sample_skewness (adjusted Fisher-Pearson, n >= 3) and sample_excess_kurtosis (n >= 4) judged against the exact textbook values (envelopes of DESIGN.md 4.1); below the minimum sample sizes the documented NaN / 0 sentinels, and |sample_skewness| <= envelope for n = 2. All comparisons are NaN-aware. Non-trivial = |G1| > 0.1 (or a threshold-table case); distinct = hash of the sequence bits");
+    cx.set_rule("cases = sequences of length 0, 1, 2, 3, 4 and longer over the C01 domain (non-zero spread from n = 2), skewed in both directions; sample_variance of Variance, Skewness, Kurtosis, WeightedMeanWithError (fed with weights of which one in five is exactly zero), Moments4 and a harness-instantiated order-6 define_moments! type, variance_of_mean/error/error_mean, sample_skewness (adjusted Fisher-Pearson, n >= 3) and sample_excess_kurtosis (n >= 4) judged against the exact textbook values (envelopes of DESIGN.md 4.1); below the minimum sample sizes the documented NaN / 0 sentinels, and |sample_skewness| <= envelope for n = 2. All comparisons are NaN-aware. Non-trivial = |G1| > 0.1 (or a threshold-table case); distinct = hash of the sequence bits");
     cx.assume("exact oracle and envelopes as in C01/C04");
     let w = cx.workers;
     cx.label("fixed");
